@@ -38,6 +38,14 @@ pub assume_specification<T: Ord, A: core::alloc::Allocator>[ <Vec<T, A> as Ord>:
 
 use vstd::std_specs::convert::*;
 
+#[derive(Debug, Copy, Clone, PartialEq, Eq)]
+pub enum Operation {
+    Exact,
+    GreaterThan,
+    GreaterThanEquals,
+    LessThan,
+    LessThanEquals,
+}
 #[derive(Debug)]
 pub enum Identifier {
     /// An identifier that's solely numbers.
@@ -347,51 +355,89 @@ pub open spec fn ge(k: VKey) -> KCmp { KCmp { op: Op::Ge, k } }
 pub open spec fn lt(k: VKey) -> KCmp { KCmp { op: Op::Lt, k } }
 pub open spec fn eqc(k: VKey) -> KCmp { KCmp { op: Op::Eq, k } }
 
-/// view of a parsed partial version: None = wildcard / missing
+pub open spec fn gt(k: VKey) -> KCmp { KCmp { op: Op::Gt, k } }
+pub open spec fn le(k: VKey) -> KCmp { KCmp { op: Op::Le, k } }
+/// node-semver isX(): a component that is missing or a wildcard.  A wildcard minor makes the patch a wildcard too.
+pub open spec fn xM(p: Partial) -> bool { p.major is None }
+pub open spec fn xm(p: Partial) -> bool { xM(p) || p.minor is None }
+pub open spec fn xp(p: Partial) -> bool { xm(p) || p.patch is None }
+pub open spec fn pM(p: Partial) -> int { p.major->0 as int }
+pub open spec fn pm(p: Partial) -> int { p.minor->0 as int }
+pub open spec fn pp(p: Partial) -> int { p.patch->0 as int }
+pub open spec fn any_set() -> Seq<KCmp> { s1(ge(k3(0, 0, 0))) }           // README: `*` := `>=0.0.0`
+pub open spec fn null_set() -> Seq<KCmp> { s1(lt(k4(0, 0, 0, pre0()))) }  // range.js: `<0.0.0-0`
+
+/// README "Caret Ranges", range.js replaceCaret
+pub open spec fn npm_caret(p: Partial) -> Seq<KCmp> {
+    let pre = p.pre_release@;
+    if xM(p) { any_set() }
+    else if xm(p) { s2(ge(k3(pM(p), 0, 0)), lt(k4(pM(p) + 1, 0, 0, pre0()))) }
+    else if xp(p) { if pM(p) == 0 { s2(ge(k3(0, pm(p), 0)), lt(k4(0, pm(p) + 1, 0, pre0()))) } else { s2(ge(k3(pM(p), pm(p), 0)), lt(k4(pM(p) + 1, 0, 0, pre0()))) } }
+    else if pM(p) == 0 && pm(p) == 0 { s2(ge(k4(0, 0, pp(p), pre)), lt(k4(0, 0, pp(p) + 1, pre0()))) }
+    else if pM(p) == 0 { s2(ge(k4(0, pm(p), pp(p), pre)), lt(k4(0, pm(p) + 1, 0, pre0()))) }
+    else { s2(ge(k4(pM(p), pm(p), pp(p), pre)), lt(k4(pM(p) + 1, 0, 0, pre0()))) }
+}
+/// README "Tilde Ranges", range.js replaceTilde (`~>` is the same as `~`)
+pub open spec fn npm_tilde(p: Partial) -> Seq<KCmp> {
+    let pre = p.pre_release@;
+    if xM(p) { any_set() }
+    else if xm(p) { s2(ge(k3(pM(p), 0, 0)), lt(k4(pM(p) + 1, 0, 0, pre0()))) }
+    else if xp(p) { s2(ge(k3(pM(p), pm(p), 0)), lt(k4(pM(p), pm(p) + 1, 0, pre0()))) }
+    else { s2(ge(k4(pM(p), pm(p), pp(p), pre)), lt(k4(pM(p), pm(p) + 1, 0, pre0()))) }
+}
+/// README "X-Ranges", range.js replaceXRange without operator
+pub open spec fn npm_plain(p: Partial) -> Seq<KCmp> {
+    let pre = p.pre_release@;
+    if xM(p) { any_set() }
+    else if xm(p) { s2(ge(k3(pM(p), 0, 0)), lt(k4(pM(p) + 1, 0, 0, pre0()))) }
+    else if xp(p) { s2(ge(k3(pM(p), pm(p), 0)), lt(k4(pM(p), pm(p) + 1, 0, pre0()))) }
+    else { s1(eqc(k4(pM(p), pm(p), pp(p), pre))) }
+}
+/// range.js replaceXRange with an operator
+pub open spec fn npm_primitive(op: Operation, p: Partial) -> Seq<KCmp> {
+    let pre = p.pre_release@;
+    if xM(p) { match op { Operation::GreaterThan | Operation::LessThan => null_set(), _ => any_set() } }
+    else if xm(p) { match op {
+        Operation::GreaterThan => s1(ge(k3(pM(p) + 1, 0, 0))),
+        Operation::GreaterThanEquals => s1(ge(k3(pM(p), 0, 0))),
+        Operation::LessThan => s1(lt(k4(pM(p), 0, 0, pre0()))),
+        Operation::LessThanEquals => s1(lt(k4(pM(p) + 1, 0, 0, pre0()))),
+        Operation::Exact => s2(ge(k3(pM(p), 0, 0)), lt(k4(pM(p) + 1, 0, 0, pre0()))),
+    } }
+    else if xp(p) { match op {
+        Operation::GreaterThan => s1(ge(k3(pM(p), pm(p) + 1, 0))),
+        Operation::GreaterThanEquals => s1(ge(k3(pM(p), pm(p), 0))),
+        Operation::LessThan => s1(lt(k4(pM(p), pm(p), 0, pre0()))),
+        Operation::LessThanEquals => s1(lt(k4(pM(p), pm(p) + 1, 0, pre0()))),
+        Operation::Exact => s2(ge(k3(pM(p), pm(p), 0)), lt(k4(pM(p), pm(p) + 1, 0, pre0()))),
+    } }
+    else { let k = k4(pM(p), pm(p), pp(p), pre); match op {
+        Operation::GreaterThan => s1(gt(k)), Operation::GreaterThanEquals => s1(ge(k)), Operation::LessThan => s1(lt(k)), Operation::LessThanEquals => s1(le(k)), Operation::Exact => s1(eqc(k)),
+    } }
+}
+/// README "Hyphen Ranges", range.js hyphenReplace: lower part / upper part (None = no comparator on that side)
+pub open spec fn npm_hyphen_from(p: Partial) -> Option<KCmp> {
+    if xM(p) { None } else if xm(p) { Some(ge(k3(pM(p), 0, 0))) } else if xp(p) { Some(ge(k3(pM(p), pm(p), 0))) } else { Some(ge(k4(pM(p), pm(p), pp(p), p.pre_release@))) }
+}
+pub open spec fn npm_hyphen_to(p: Partial) -> Option<KCmp> {
+    if xM(p) { None } else if xm(p) { Some(lt(k4(pM(p) + 1, 0, 0, pre0()))) } else if xp(p) { Some(lt(k4(pM(p), pm(p) + 1, 0, pre0()))) } else { Some(le(k4(pM(p), pm(p), pp(p), p.pre_release@))) }
+}
+pub open spec fn npm_hyphen(f: Partial, t: Partial) -> Seq<KCmp> {
+    match (npm_hyphen_from(f), npm_hyphen_to(t)) {
+        (Some(a), Some(b)) => s2(a, b), (Some(a), None) => s1(a), (None, Some(b)) => s1(b), (None, None) => Seq::empty(),
+    }
+}
 pub open spec fn wf_partial(p: Partial) -> bool {
     (p.major matches Some(x) ==> x <= MAX_SAFE_INTEGER) && (p.minor matches Some(x) ==> x <= MAX_SAFE_INTEGER) && (p.patch matches Some(x) ==> x <= MAX_SAFE_INTEGER)
-    && (p.patch is None ==> p.pre_release@.len() == 0)
-}
-/// npm: caret ranges (README "Caret Ranges", range.js replaceCaret).  None = comparator is not valid
-pub open spec fn npm_caret(p: Partial) -> Option<Seq<KCmp>> {
-    let pre = p.pre_release@;
-    match (p.major, p.minor, p.patch) {
-        (None, _, _) => Some(Seq::empty()),                                                  // ^* == *
-        (Some(M), None, _) => Some(s2(ge(k3(M as int, 0, 0)), lt(k4(M + 1, 0, 0, pre0())))),
-        (Some(M), Some(m), None) => if M == 0 { Some(s2(ge(k3(0, m as int, 0)), lt(k4(0, m + 1, 0, pre0())))) }
-                                    else { Some(s2(ge(k3(M as int, m as int, 0)), lt(k4(M + 1, 0, 0, pre0())))) },
-        (Some(M), Some(m), Some(pt)) =>
-            if M == 0 && m == 0 { Some(s2(ge(k4(0, 0, pt as int, pre)), lt(k4(0, 0, pt + 1, pre0())))) }
-            else if M == 0 { Some(s2(ge(k4(0, m as int, pt as int, pre)), lt(k4(0, m + 1, 0, pre0())))) }
-            else { Some(s2(ge(k4(M as int, m as int, pt as int, pre)), lt(k4(M + 1, 0, 0, pre0())))) },
-    }
-}
-/// npm: X-ranges / plain partials (README "X-Ranges", range.js replaceXRange with no operator; full version == exact)
-pub open spec fn npm_plain(p: Partial) -> Option<Seq<KCmp>> {
-    let pre = p.pre_release@;
-    match (p.major, p.minor, p.patch) {
-        (None, _, _) => Some(Seq::empty()),
-        (Some(M), None, _) => Some(s2(ge(k3(M as int, 0, 0)), lt(k4(M + 1, 0, 0, pre0())))),
-        (Some(M), Some(m), None) => Some(s2(ge(k3(M as int, m as int, 0)), lt(k4(M as int, m + 1, 0, pre0())))),
-        (Some(M), Some(m), Some(pt)) => Some(s1(eqc(k4(M as int, m as int, pt as int, pre)))),
-    }
 }
 pub open spec fn lower_cut(cs: Seq<KCmp>) -> Cut { if cs.len() == 0 { Cut::NegInf } else { match cs[0].op { Op::Ge => Cut::At(cs[0].k, false), Op::Gt => Cut::At(cs[0].k, true), Op::Eq => Cut::At(cs[0].k, false), _ => Cut::NegInf } } }
 pub open spec fn upper_cut(cs: Seq<KCmp>) -> Cut { if cs.len() == 0 { Cut::PosInf } else { let c = cs[cs.len() - 1]; match c.op { Op::Le => Cut::At(c.k, true), Op::Lt => Cut::At(c.k, false), Op::Eq => Cut::At(c.k, true), _ => Cut::PosInf } } }
-pub open spec fn shape_ok(r: Option<BoundSet>, spec: Option<Seq<KCmp>>) -> bool {
-    match (r, spec) {
-        (Some(bs), Some(cs)) => bs_wf(bs) && cut_of(*bs.lower) == lower_cut(cs) && cut_of(*bs.upper) == upper_cut(cs),
-        (None, None) => true,
-        _ => false,
-    }
-}
-pub open spec fn desugar_ok(r: Option<BoundSet>, spec: Option<Seq<KCmp>>) -> bool {
-    match (r, spec) {
-        (Some(bs), Some(cs)) => bs_wf(bs) && repr(bs, cs),
-        (None, None) => true,
-        // an interval that no version can enter may be dropped
-        (None, Some(cs)) => forall|v: VKey| wfk(v) ==> !set_ok(cs, v),
-        (Some(_), None) => false,
+/// the interval the code built has exactly the two cuts of npm's comparator list
+pub open spec fn shape_ok(r: Option<BoundSet>, cs: Seq<KCmp>) -> bool {
+    match r {
+        Some(bs) => bs_wf(bs) && cut_of(*bs.lower) == lower_cut(cs) && cut_of(*bs.upper) == upper_cut(cs),
+        // an interval nothing can enter is dropped
+        None => cut_cmp(lower_cut(cs), upper_cut(cs)) != Ordering::Less,
     }
 }
 
@@ -501,10 +547,11 @@ impl Bound {
 fn caret_desugar(parsed: Partial) -> (r: Option<BoundSet>)
     requires wf_partial(parsed),
     ensures
-        (parsed.major is None) ==> shape_ok(r, npm_caret(parsed)),
-        (parsed.major is Some && parsed.minor is None) ==> shape_ok(r, npm_caret(parsed)),
-        (parsed.major is Some && parsed.minor is Some && parsed.patch is None) ==> shape_ok(r, npm_caret(parsed)),
-        (parsed.major is Some && parsed.minor is Some && parsed.patch is Some) ==> shape_ok(r, npm_caret(parsed)),
+        xM(parsed) ==> shape_ok(r, npm_caret(parsed)),
+        !xM(parsed) && xm(parsed) && pM(parsed) == 0 ==> shape_ok(r, npm_caret(parsed)),
+        !xM(parsed) && xm(parsed) && pM(parsed) != 0 ==> shape_ok(r, npm_caret(parsed)),
+        !xm(parsed) && xp(parsed) ==> shape_ok(r, npm_caret(parsed)),
+        !xp(parsed) ==> shape_ok(r, npm_caret(parsed)),
 {
  broadcast use group_k_order, group_sets;
  proof { reveal(cut_cmp);
@@ -570,13 +617,340 @@ fn caret_desugar(parsed: Partial) -> (r: Option<BoundSet>)
         }
 }
 
+fn primitive_desugar(parsed: (Operation, Partial)) -> (r: Option<BoundSet>)
+    requires wf_partial(parsed.1),
+    ensures
+        parsed.0 == Operation::Exact && xM(parsed.1) ==> shape_ok(r, npm_primitive(parsed.0, parsed.1)),  // Exact/xM
+        parsed.0 == Operation::Exact && !xM(parsed.1) && xm(parsed.1) ==> shape_ok(r, npm_primitive(parsed.0, parsed.1)),  // Exact/xm
+        parsed.0 == Operation::Exact && !xm(parsed.1) && xp(parsed.1) ==> shape_ok(r, npm_primitive(parsed.0, parsed.1)),  // Exact/xp
+        parsed.0 == Operation::Exact && !xp(parsed.1) ==> shape_ok(r, npm_primitive(parsed.0, parsed.1)),  // Exact/full
+        parsed.0 == Operation::GreaterThan && xM(parsed.1) ==> shape_ok(r, npm_primitive(parsed.0, parsed.1)),  // GreaterThan/xM
+        parsed.0 == Operation::GreaterThan && !xM(parsed.1) && xm(parsed.1) ==> shape_ok(r, npm_primitive(parsed.0, parsed.1)),  // GreaterThan/xm
+        parsed.0 == Operation::GreaterThan && !xm(parsed.1) && xp(parsed.1) ==> shape_ok(r, npm_primitive(parsed.0, parsed.1)),  // GreaterThan/xp
+        parsed.0 == Operation::GreaterThan && !xp(parsed.1) ==> shape_ok(r, npm_primitive(parsed.0, parsed.1)),  // GreaterThan/full
+        parsed.0 == Operation::GreaterThanEquals && xM(parsed.1) ==> shape_ok(r, npm_primitive(parsed.0, parsed.1)),  // GreaterThanEquals/xM
+        parsed.0 == Operation::GreaterThanEquals && !xM(parsed.1) && xm(parsed.1) ==> shape_ok(r, npm_primitive(parsed.0, parsed.1)),  // GreaterThanEquals/xm
+        parsed.0 == Operation::GreaterThanEquals && !xm(parsed.1) && xp(parsed.1) ==> shape_ok(r, npm_primitive(parsed.0, parsed.1)),  // GreaterThanEquals/xp
+        parsed.0 == Operation::GreaterThanEquals && !xp(parsed.1) ==> shape_ok(r, npm_primitive(parsed.0, parsed.1)),  // GreaterThanEquals/full
+        parsed.0 == Operation::LessThan && xM(parsed.1) ==> shape_ok(r, npm_primitive(parsed.0, parsed.1)),  // LessThan/xM
+        parsed.0 == Operation::LessThan && !xM(parsed.1) && xm(parsed.1) ==> shape_ok(r, npm_primitive(parsed.0, parsed.1)),  // LessThan/xm
+        parsed.0 == Operation::LessThan && !xm(parsed.1) && xp(parsed.1) ==> shape_ok(r, npm_primitive(parsed.0, parsed.1)),  // LessThan/xp
+        parsed.0 == Operation::LessThan && !xp(parsed.1) ==> shape_ok(r, npm_primitive(parsed.0, parsed.1)),  // LessThan/full
+        parsed.0 == Operation::LessThanEquals && xM(parsed.1) ==> shape_ok(r, npm_primitive(parsed.0, parsed.1)),  // LessThanEquals/xM
+        parsed.0 == Operation::LessThanEquals && !xM(parsed.1) && xm(parsed.1) ==> shape_ok(r, npm_primitive(parsed.0, parsed.1)),  // LessThanEquals/xm
+        parsed.0 == Operation::LessThanEquals && !xm(parsed.1) && xp(parsed.1) ==> shape_ok(r, npm_primitive(parsed.0, parsed.1)),  // LessThanEquals/xp
+        parsed.0 == Operation::LessThanEquals && !xp(parsed.1) ==> shape_ok(r, npm_primitive(parsed.0, parsed.1)),  // LessThanEquals/full
+{
+ broadcast use group_k_order, group_sets;
+ proof { reveal(cut_cmp);
+        assert forall|s: Seq<Identifier>| #![trigger s.len()] s.len() == 1 && s[0] == Identifier::Numeric(0) implies s == pre0() by { assert(s =~= pre0()); }
+        assert forall|s: Seq<Identifier>| #![trigger s.len()] s.len() == 0 implies s == Seq::<Identifier>::empty() by { assert(s =~= Seq::<Identifier>::empty()); }
+ }
+    use Operation::*;
+match parsed {
+            (GreaterThanEquals, partial) => {
+                BoundSet::at_least(Predicate::Including(partial.into()))
+            }
+            (
+                GreaterThan,
+                Partial {
+                    major: Some(major),
+                    minor: Some(minor),
+                    patch: None,
+                    ..
+                },
+            ) => BoundSet::at_least(Predicate::Including((major, minor + 1, 0).into())),
+            (
+                GreaterThan,
+                Partial {
+                    major: Some(major),
+                    minor: None,
+                    patch: None,
+                    ..
+                },
+            ) => BoundSet::at_least(Predicate::Including((major + 1, 0, 0).into())),
+            (GreaterThan, partial) => BoundSet::at_least(Predicate::Excluding(partial.into())),
+            (
+                LessThan,
+                Partial {
+                    major: Some(major),
+                    minor: Some(minor),
+                    patch: None,
+                    ..
+                },
+            ) => BoundSet::at_most(Predicate::Excluding((major, minor, 0, 0).into())),
+            (
+                LessThan,
+                Partial {
+                    major,
+                    minor,
+                    patch,
+                    pre_release,
+                    build,
+                    ..
+                },
+            ) => BoundSet::at_most(Predicate::Excluding(Version {
+                major: major.unwrap_or(0),
+                minor: minor.unwrap_or(0),
+                patch: patch.unwrap_or(0),
+                build,
+                pre_release,
+            })),
+            (
+                LessThanEquals,
+                Partial {
+                    major,
+                    minor: None,
+                    patch: None,
+                    ..
+                },
+            ) => BoundSet::at_most(Predicate::Including(
+                (major.unwrap_or(0), MAX_SAFE_INTEGER, MAX_SAFE_INTEGER).into(),
+            )),
+            (
+                LessThanEquals,
+                Partial {
+                    major,
+                    minor,
+                    patch: None,
+                    ..
+                },
+            ) => BoundSet::at_most(Predicate::Including(
+                (major.unwrap_or(0), minor.unwrap_or(0), MAX_SAFE_INTEGER).into(),
+            )),
+            (LessThanEquals, partial) => BoundSet::at_most(Predicate::Including(partial.into())),
+            (
+                Exact,
+                Partial {
+                    major: Some(major),
+                    minor: Some(minor),
+                    patch: Some(patch),
+                    pre_release,
+                    ..
+                },
+            ) => BoundSet::exact(Version {
+                major,
+                minor,
+                patch,
+                pre_release,
+                build: vec![],
+            }),
+            (
+                Exact,
+                Partial {
+                    major: Some(major),
+                    minor: Some(minor),
+                    ..
+                },
+            ) => BoundSet::new(
+                Bound::Lower(Predicate::Including((major, minor, 0).into())),
+                Bound::Upper(Predicate::Excluding(Version {
+                    major,
+                    minor: minor + 1,
+                    patch: 0,
+                    pre_release: vec![Identifier::Numeric(0)],
+                    build: vec![],
+                })),
+            ),
+            (
+                Exact,
+                Partial {
+                    major: Some(major), ..
+                },
+            ) => BoundSet::new(
+                Bound::Lower(Predicate::Including((major, 0, 0).into())),
+                Bound::Upper(Predicate::Excluding(Version {
+                    major: major + 1,
+                    minor: 0,
+                    patch: 0,
+                    pre_release: vec![Identifier::Numeric(0)],
+                    build: vec![],
+                })),
+            ),
+            _ => None,
+        }
+}
+
+fn tilde_desugar(parsed: (Option<&str>, Partial)) -> (r: Option<BoundSet>)
+    requires wf_partial(parsed.1),
+    ensures
+        parsed.1.major is None ==> shape_ok(r, npm_tilde(parsed.1)),   // ~x
+        parsed.1.major is Some && parsed.1.minor is None && parsed.1.patch is None ==> shape_ok(r, npm_tilde(parsed.1)),   // ~1
+        parsed.1.major is Some && parsed.1.minor is None && parsed.1.patch is Some ==> shape_ok(r, npm_tilde(parsed.1)),   // ~1.x.3
+        parsed.1.major is Some && parsed.1.minor is Some && parsed.1.patch is None ==> shape_ok(r, npm_tilde(parsed.1)),   // ~1.2
+        parsed.1.major is Some && parsed.1.minor is Some && parsed.1.patch is Some ==> shape_ok(r, npm_tilde(parsed.1)),   // ~1.2.3[-pre]
+{
+ broadcast use group_k_order, group_sets;
+ proof { reveal(cut_cmp);
+        assert forall|s: Seq<Identifier>| #![trigger s.len()] s.len() == 1 && s[0] == Identifier::Numeric(0) implies s == pre0() by { assert(s =~= pre0()); }
+        assert forall|s: Seq<Identifier>| #![trigger s.len()] s.len() == 0 implies s == Seq::<Identifier>::empty() by { assert(s =~= Seq::<Identifier>::empty()); }
+ }
+    match parsed {
+        (
+            Some(_gt),
+            Partial {
+                major: Some(major),
+                minor: None,
+                patch: None,
+                ..
+            },
+        ) => BoundSet::new(
+            Bound::Lower(Predicate::Including((major, 0, 0).into())),
+            Bound::Upper(Predicate::Excluding((major + 1, 0, 0, 0).into())),
+        ),
+        (
+            Some(_gt),
+            Partial {
+                major: Some(major),
+                minor: Some(minor),
+                patch,
+                pre_release,
+                ..
+            },
+        ) => BoundSet::new(
+            Bound::Lower(Predicate::Including(Version {
+                major,
+                minor,
+                patch: patch.unwrap_or(0),
+                pre_release,
+                build: vec![],
+            })),
+            Bound::Upper(Predicate::Excluding((major, minor + 1, 0, 0).into())),
+        ),
+        (
+            None,
+            Partial {
+                major: Some(major),
+                minor: Some(minor),
+                patch: Some(patch),
+                pre_release,
+                ..
+            },
+        ) => BoundSet::new(
+            Bound::Lower(Predicate::Including(Version {
+                major,
+                minor,
+                patch,
+                pre_release,
+                build: vec![],
+            })),
+            Bound::Upper(Predicate::Excluding((major, minor + 1, 0, 0).into())),
+        ),
+        (
+            None,
+            Partial {
+                major: Some(major),
+                minor: Some(minor),
+                patch: None,
+                ..
+            },
+        ) => BoundSet::new(
+            Bound::Lower(Predicate::Including((major, minor, 0).into())),
+            Bound::Upper(Predicate::Excluding((major, minor + 1, 0, 0).into())),
+        ),
+        (
+            None,
+            Partial {
+                major: Some(major),
+                minor: None,
+                patch: None,
+                ..
+            },
+        ) => BoundSet::new(
+            Bound::Lower(Predicate::Including((major, 0, 0).into())),
+            Bound::Upper(Predicate::Excluding((major + 1, 0, 0, 0).into())),
+        ),
+        _ => None,
+    }
+}
+
+fn hyphen_desugar(lower: Option<Partial>, upper: Partial) -> (r: Option<BoundSet>)
+    requires wf_partial(upper), lower matches Some(f) ==> wf_partial(f),
+    ensures
+        (lower is None) && xM(upper) ==> (r matches Some(bs) ==> bs_wf(bs)),  // none-xM
+        (lower is None) && !xM(upper) && xm(upper) ==> (r matches Some(bs) ==> bs_wf(bs)),  // none-xm
+        (lower is None) && !xm(upper) && xp(upper) ==> (r matches Some(bs) ==> bs_wf(bs)),  // none-xp
+        (lower is None) && !xp(upper) ==> (r matches Some(bs) ==> bs_wf(bs)),  // none-full
+        (lower matches Some(f) && xM(f)) && xM(upper) ==> shape_ok(r, npm_hyphen(lower->0, upper)),  // xM-xM
+        (lower matches Some(f) && xM(f)) && !xM(upper) && xm(upper) ==> shape_ok(r, npm_hyphen(lower->0, upper)),  // xM-xm
+        (lower matches Some(f) && xM(f)) && !xm(upper) && xp(upper) ==> shape_ok(r, npm_hyphen(lower->0, upper)),  // xM-xp
+        (lower matches Some(f) && xM(f)) && !xp(upper) ==> shape_ok(r, npm_hyphen(lower->0, upper)),  // xM-full
+        (lower matches Some(f) && !xM(f) && xm(f)) && xM(upper) ==> shape_ok(r, npm_hyphen(lower->0, upper)),  // xm-xM
+        (lower matches Some(f) && !xM(f) && xm(f)) && !xM(upper) && xm(upper) ==> shape_ok(r, npm_hyphen(lower->0, upper)),  // xm-xm
+        (lower matches Some(f) && !xM(f) && xm(f)) && !xm(upper) && xp(upper) ==> shape_ok(r, npm_hyphen(lower->0, upper)),  // xm-xp
+        (lower matches Some(f) && !xM(f) && xm(f)) && !xp(upper) ==> shape_ok(r, npm_hyphen(lower->0, upper)),  // xm-full
+        (lower matches Some(f) && !xm(f) && xp(f)) && xM(upper) ==> shape_ok(r, npm_hyphen(lower->0, upper)),  // xp-xM
+        (lower matches Some(f) && !xm(f) && xp(f)) && !xM(upper) && xm(upper) ==> shape_ok(r, npm_hyphen(lower->0, upper)),  // xp-xm
+        (lower matches Some(f) && !xm(f) && xp(f)) && !xm(upper) && xp(upper) ==> shape_ok(r, npm_hyphen(lower->0, upper)),  // xp-xp
+        (lower matches Some(f) && !xm(f) && xp(f)) && !xp(upper) ==> shape_ok(r, npm_hyphen(lower->0, upper)),  // xp-full
+        (lower matches Some(f) && !xp(f)) && xM(upper) ==> shape_ok(r, npm_hyphen(lower->0, upper)),  // full-xM
+        (lower matches Some(f) && !xp(f)) && !xM(upper) && xm(upper) ==> shape_ok(r, npm_hyphen(lower->0, upper)),  // full-xm
+        (lower matches Some(f) && !xp(f)) && !xm(upper) && xp(upper) ==> shape_ok(r, npm_hyphen(lower->0, upper)),  // full-xp
+        (lower matches Some(f) && !xp(f)) && !xp(upper) ==> shape_ok(r, npm_hyphen(lower->0, upper)),  // full-full
+{
+ broadcast use group_k_order, group_sets;
+ proof { reveal(cut_cmp);
+        assert forall|s: Seq<Identifier>| #![trigger s.len()] s.len() == 1 && s[0] == Identifier::Numeric(0) implies s == pre0() by { assert(s =~= pre0()); }
+        assert forall|s: Seq<Identifier>| #![trigger s.len()] s.len() == 0 implies s == Seq::<Identifier>::empty() by { assert(s =~= Seq::<Identifier>::empty()); }
+ }
+    let upper = match upper {
+            Partial {
+                major: None,
+                minor: None,
+                patch: None,
+                ..
+            } => Predicate::Excluding(Version {
+                major: 0,
+                minor: 0,
+                patch: 0,
+                pre_release: vec![Identifier::Numeric(0)],
+                build: vec![],
+            }),
+            Partial {
+                major: Some(major),
+                minor: None,
+                patch: None,
+                ..
+            } => Predicate::Excluding(Version {
+                major: major + 1,
+                minor: 0,
+                patch: 0,
+                pre_release: vec![Identifier::Numeric(0)],
+                build: vec![],
+            }),
+            Partial {
+                major: Some(major),
+                minor: Some(minor),
+                patch: None,
+                ..
+            } => Predicate::Excluding(Version {
+                major,
+                minor: minor + 1,
+                patch: 0,
+                pre_release: vec![Identifier::Numeric(0)],
+                build: vec![],
+            }),
+            partial => Predicate::Including(partial.into()),
+        };
+        let bounds = if let Some(lower) = lower {
+            BoundSet::new(
+                Bound::Lower(Predicate::Including(lower.into())),
+                Bound::Upper(upper),
+            )
+        } else {
+            BoundSet::at_most(upper)
+        };
+        
+ bounds
+}
+
 fn partial_desugar(partial: Partial) -> (r: Option<BoundSet>)
     requires wf_partial(partial),
     ensures
-        (partial.major is None) ==> shape_ok(r, npm_plain(partial)),
-        (partial.major is Some && partial.minor is None) ==> shape_ok(r, npm_plain(partial)),
-        (partial.major is Some && partial.minor is Some && partial.patch is None) ==> shape_ok(r, npm_plain(partial)),
-        (partial.major is Some && partial.minor is Some && partial.patch is Some) ==> shape_ok(r, npm_plain(partial)),
+        xM(partial) ==> shape_ok(r, npm_plain(partial)),
+        !xM(partial) && xm(partial) ==> shape_ok(r, npm_plain(partial)),
+        !xm(partial) && xp(partial) ==> shape_ok(r, npm_plain(partial)),
+        !xp(partial) ==> shape_ok(r, npm_plain(partial)),
 {
  broadcast use group_k_order, group_sets;
  proof { reveal(cut_cmp);
@@ -618,5 +992,35 @@ fn partial_desugar(partial: Partial) -> (r: Option<BoundSet>)
     }
 }
 
+
+fn dbg5(major: u64, minor: u64, patch: u64, pre_release: Vec<Identifier>) -> (r: Option<BoundSet>)
+    requires major <= MAX_SAFE_INTEGER, minor <= MAX_SAFE_INTEGER, patch <= MAX_SAFE_INTEGER
+    ensures shape_ok(r, s2(ge(k4(major as int, minor as int, patch as int, pre_release@)), lt(k4(major as int, minor + 1, 0, pre0()))))
+{
+ broadcast use group_k_order, group_sets;
+ proof { reveal(cut_cmp);
+        assert forall|s: Seq<Identifier>| #![trigger s.len()] s.len() == 1 && s[0] == Identifier::Numeric(0) implies s == pre0() by { assert(s =~= pre0()); }
+        assert forall|s: Seq<Identifier>| #![trigger s.len()] s.len() == 0 implies s == Seq::<Identifier>::empty() by { assert(s =~= Seq::<Identifier>::empty()); }
+ }
+
+    let r = BoundSet::new(
+            Bound::Lower(Predicate::Including(Version {
+                major,
+                minor,
+                patch,
+                pre_release,
+                build: vec![],
+            })),
+            Bound::Upper(Predicate::Excluding((major, minor + 1, 0, 0).into())),
+        );
+    proof {
+        let cs = s2(ge(k4(major as int, minor as int, patch as int, pre_release@)), lt(k4(major as int, minor + 1, 0, pre0())));
+        assert(cs.len() == 2);
+        assert(cs[0] == ge(k4(major as int, minor as int, patch as int, pre_release@)));
+        assert(lower_cut(cs) == Cut::At(k4(major as int, minor as int, patch as int, pre_release@), false));
+        assert(upper_cut(cs) == Cut::At(k4(major as int, minor + 1, 0, pre0()), false));
+    }
+    r
+}
 } // verus!
 fn main() {}
